@@ -1,5 +1,6 @@
 import Rangers.Model.Miner
 import Rangers.Generated.C20Facts
+import Rangers.Model.MinerRefundHeight
 /-!
 T-gen obligations for C20: the constants and structural facts the miner model was written against,
 re-extracted from the go-rangers working tree on every run (`gen/cmd/c20facts`). If the source
@@ -82,5 +83,12 @@ theorem numeric_conversions_as_modelled :
        "miner_manager.go:GetProposerTotalStake:uint64(…)", "miner_manager.go:GetProposerTotalStakeWithDetail:uint64(…)",
        "miner_manager.go:GetValidatorsStake:uint64(…)", "refund_manager.go:getRefundHeight:int(…)",
        "refund_manager.go:getRefundHeight:uint64(…)"] := by decide
+
+/-- `getRefundHeight`: its branch conditions in source order (what `refundHeightOf` follows) and the two block counts. -/
+theorem refund_height_as_modelled :
+    Generated.C20.refundHeightConds =
+      ["common.IsProposal012()", "minerType == common.MinerTypeValidator", "situation != \"fork\"", "delta > 0",
+       "base != math.MaxUint64", "common.IsProposal004() && height <= 0", "common.LocalChainConfig.Proposal011Block == now"] ∧
+    refundBlocks = Generated.C20.refundBlocks ∧ rewardBlocks = Generated.C20.rewardBlocks := by decide
 
 end Rangers.Props.C20Facts
